@@ -31,6 +31,23 @@ pub fn c01_shapes(thorough: bool, seed: u64) -> Vec<Shape> {
         Shape::new("phase2_unpaired_alloc_tail", &[Commit], &[&[Chal, Alloc, Con]]),
         Shape::new("two_commits_two_gates", &[Commit, Commit, AllocMul, Mul, Con], &[]),
         Shape::new("gate_between_paired_allocations", &[Alloc, AllocMul, Alloc, Con], &[]),
+        Shape::new("identity_commitment_in_statement", &[Commit, CommitZero, AllocMul, Con, ConCommitted], &[]),
+        Shape::new("gates_without_any_constraint", &[Commit, AllocMul, AllocMul], &[]),
+        {
+            let mut s = Shape::new("closure_registered_between_paired_allocations", &[Alloc, Alloc, Con], &[&[Chal, Con]]);
+            s.register_at = Some(1);
+            s
+        },
+        {
+            let mut s = Shape::new("closure_registered_first", &[Commit, AllocMul, Alloc, Con], &[&[Chal, Alloc, Con]]);
+            s.register_at = Some(0);
+            s
+        },
+        {
+            let mut s = Shape::new("mixed_literal_coefficients_two_phase", &[Commit, AllocMul, Con, Con], &[&[Chal, Mul, Con]]);
+            s.coef = Coef::Mixed(seed.wrapping_add(29));
+            s
+        },
         Shape::new("pending_allocation_across_two_closures", &[Commit, AllocMul], &[&[Chal, Alloc], &[Alloc, Con]]),
         Shape::new("two_different_closures", &[Commit, AllocMul, Con], &[&[Chal, Mul, Con], &[Chal, Msg("second".into()), AllocMul, AllocMul, Con]]),
     ];
@@ -145,6 +162,8 @@ pub fn c02_cases(thorough: bool, seed: u64) -> Vec<(Shape, ErrPlan)> {
     single("half_allocated_gate_constraint", &[Alloc, Con], &[], &[0], &[]);
     single("alloc_pair_gate", &[Alloc, Alloc, Con], &[], &[], &[(0, 2)]);
     single("second_of_two_constraints", &[Commit, AllocMul, Con, Con], &[], &[1], &[]);
+    single("gate_output_without_any_constraint", &[AllocMul, AllocMul], &[], &[], &[(1, 2)]);
+    single("gate_output_only_commitment_no_constraint", &[Commit, AllocMul], &[], &[], &[(0, 2)]);
     // universal: all errors symbolic at once
     for s in [
         Shape::new("all_errors_one_gate", &[Commit, AllocMul, Con, ConCommitted], &[]),
@@ -177,6 +196,8 @@ pub fn c03_shapes(thorough: bool, seed: u64) -> Vec<Shape> {
         Shape::new("three_gates_pad4", &[Commit, Commit, AllocMul, Mul, Alloc, Con, Con], &[]),
         Shape::new("two_phase_pad4", &[Commit, AllocMul, AllocMul, Con], &[&[Chal, Mul, Con]]),
         Shape::new("phase2_only", &[Commit], &[&[Chal, AllocMul, AllocMul, Con]]),
+        Shape::new("gates_without_any_constraint", &[Commit, AllocMul, AllocMul], &[]),
+        Shape::new("identity_commitment", &[Commit, CommitZero, AllocMul, Con], &[]),
     ];
     if thorough {
         v.push(Shape::new("five_gates_pad8", &[Commit, AllocMul, AllocMul, Mul, Alloc, Alloc, Con], &[&[Chal, AllocMul, Con]]));
